@@ -531,7 +531,16 @@ pub fn main(args: &[String]) {
         "offbook" => {
             // supplied boards and random continuations: the engine must still answer with a legal move
             for g in 0..games {
-                let start = if seeds.is_empty() { Board::starting_position() } else { seeds[rng.below(seeds.len())].setup() };
+                let start = if g % 3 == 2 {
+                    // a supplied position with BLACK to move in which the book's first moves are legal -- for White
+                    let fens = ["rnbqkbnr/pppppppp/8/8/8/8/PPPPPPPP/RNBQKBNR b KQkq -", "rnbqkb1r/pppppppp/5n2/8/8/8/PPPPPPPP/RNBQKBNR b KQkq -",
+                                "r1bqkbnr/pppppppp/2n5/8/8/5N2/PPPPPPPP/RNBQKB1R b KQkq -"];
+                    crate::trace::parse_fen(fens[rng.below(fens.len())]).setup()
+                } else if seeds.is_empty() {
+                    Board::starting_position()
+                } else {
+                    seeds[rng.below(seeds.len())].setup()
+                };
                 let mut game = Game::from_board(start, 1 + (g % 2) as u8);
                 tr.reset(&game);
                 for _ in 0..plies {
